@@ -26,7 +26,7 @@ use identity_jose::jws::{
   Recipient, SignatureVerificationError, SignatureVerificationErrorKind, VerificationInput,
 };
 use identity_storage::{JwkDocumentExt, JwkMemStore, JwsSignatureOptions, KeyIdMemstore, Storage};
-use identity_verification::{MethodRelationship, MethodScope};
+use identity_verification::{MethodRelationship, MethodScope, VerificationMethod};
 use serde_json::{json, Value};
 use vh::b64::{url_decode, url_encode};
 use vh::keys::{Alg, Key};
@@ -436,7 +436,7 @@ impl Doc {
 
 type Store = Storage<JwkMemStore, KeyIdMemstore>;
 
-fn build_doc(rng: &mut Rng, iota: bool) -> (Doc, Store, Vec<MethodSpec>) {
+fn build_doc(rng: &mut Rng, iota: bool) -> (Doc, Store, Vec<MethodSpec>, Vec<DIDUrl>) {
   let storage: Store = Storage::new(JwkMemStore::new(), KeyIdMemstore::new());
   let mut doc = if iota {
     Doc::Iota(IotaDocument::new(&NetworkName::try_from("smr").unwrap()))
@@ -472,7 +472,58 @@ fn build_doc(rng: &mut Rng, iota: bool) -> (Doc, Store, Vec<MethodSpec>) {
     }
     specs.push(MethodSpec { fragment: frag, id, scopes });
   }
-  (doc, storage, specs)
+  // methods of other DIDs that share a fragment with one of the document's own methods (listed after them, so that
+  // fragment-only signing still picks the own method): naming one as method id must never select its namesake
+  let mut twins: Vec<DIDUrl> = Vec::new();
+  if rng.chance(2, 3) {
+    for t in 0..1 + rng.usize(2) {
+      let spec = rng.pick(&specs).clone();
+      let foreign: CoreDID = CoreDID::parse(format!("did:example:other{}", t)).unwrap();
+      let jwk: Jwk = serde_json::from_str(&Key::new(Alg::EdDSA, 900 + t as u64).public_jwk_json(Some("EdDSA"))).expect("harness jwk");
+      let vm = VerificationMethod::new_from_jwk(foreign, jwk, Some(spec.fragment.as_str())).expect("harness method");
+      let id = vm.id().clone();
+      let scope = if rng.bool() { MethodScope::VerificationMethod } else { spec.scopes[0] };
+      // placed through the document's JSON form (appended to the scope's array), so that the set-up does not depend on
+      // the id checks of insert_method
+      let member = match scope {
+        MethodScope::VerificationMethod => "verificationMethod",
+        MethodScope::VerificationRelationship(MethodRelationship::Authentication) => "authentication",
+        MethodScope::VerificationRelationship(MethodRelationship::AssertionMethod) => "assertionMethod",
+        MethodScope::VerificationRelationship(MethodRelationship::KeyAgreement) => "keyAgreement",
+        MethodScope::VerificationRelationship(MethodRelationship::CapabilityDelegation) => "capabilityDelegation",
+        MethodScope::VerificationRelationship(MethodRelationship::CapabilityInvocation) => "capabilityInvocation",
+      };
+      let mut v: Value = match &doc {
+        Doc::Core(d) => serde_json::to_value(d).expect("harness: document to JSON"),
+        Doc::Iota(d) => serde_json::to_value(d).expect("harness: document to JSON"),
+      };
+      {
+        let inner = if iota { &mut v["doc"] } else { &mut v };
+        let arr = inner.as_object_mut().expect("document object").entry(member.to_string()).or_insert_with(|| json!([]));
+        arr.as_array_mut().expect("method array").push(serde_json::to_value(&vm).expect("method to JSON"));
+      }
+      let ok = match &mut doc {
+        Doc::Core(d) => match serde_json::from_value::<CoreDocument>(v) {
+          Ok(nd) => {
+            *d = nd;
+            true
+          }
+          Err(_) => false,
+        },
+        Doc::Iota(d) => match serde_json::from_value::<IotaDocument>(v) {
+          Ok(nd) => {
+            *d = nd;
+            true
+          }
+          Err(_) => false,
+        },
+      };
+      if ok && !twins.contains(&id) {
+        twins.push(id);
+      }
+    }
+  }
+  (doc, storage, specs, twins)
 }
 
 fn gen_options(rng: &mut Rng, m: &MethodSpec) -> (JwsSignatureOptions, Value) {
@@ -507,7 +558,7 @@ fn gen_options(rng: &mut Rng, m: &MethodSpec) -> (JwsSignatureOptions, Value) {
     d.insert("url".into(), json!("https://example.com/endpoint?a=b"));
   }
   if rng.chance(1, 2) {
-    let n = format!("nonce-{}", rng.below(100_000));
+    let n = if rng.chance(1, 8) { String::new() } else { format!("nonce-{}", rng.below(100_000)) };
     o = o.nonce(n.clone());
     d.insert("nonce".into(), json!(n));
   }
@@ -538,7 +589,7 @@ fn gen_options(rng: &mut Rng, m: &MethodSpec) -> (JwsSignatureOptions, Value) {
 }
 
 impl Cx {
-  fn storage_case(&mut self, rng: &mut Rng, doc: &Doc, storage: &Store, specs: &[MethodSpec], iota: bool) {
+  fn storage_case(&mut self, rng: &mut Rng, doc: &Doc, storage: &Store, specs: &[MethodSpec], twins: &[DIDUrl], iota: bool) {
     self.rep.eval();
     let m = rng.pick(specs).clone();
     let (pl, pclass) = payload(rng);
@@ -649,6 +700,14 @@ impl Cx {
         self.viol("verifies-under-other-method-key", format!("token for {} verifies with method_id {}", m.id, other.id), &case);
       }
     }
+    for other in twins {
+      self.rep.inc("negative_verifications");
+      self.rep.inc("negative_verifications:foreign-namesake");
+      let vo = base(o.nonce.as_deref(), Some(other), None);
+      if let Ok(Ok(_)) = catch(|| core.verify_jws(token.as_str(), det, &verifier, &vo).map(|_| ())) {
+        self.viol("verifies-under-other-method-key:foreign-namesake", format!("token for {} verifies with method_id {}", m.id, other), &case);
+      }
+    }
     // negatives: nonce
     let wrong_nonces: Vec<Option<String>> = match &o.nonce {
       Some(n) => vec![None, Some(format!("{}x", n)), Some(String::new()), Some(n.to_uppercase())],
@@ -726,9 +785,9 @@ fn main() {
   let per_doc = if args.thorough { 40 } else { 25 };
   for d in 0..n_docs {
     let iota = d % 3 == 2;
-    let (doc, storage, specs) = build_doc(&mut rng, iota);
+    let (doc, storage, specs, twins) = build_doc(&mut rng, iota);
     for _ in 0..per_doc {
-      cx.storage_case(&mut rng, &doc, &storage, &specs, iota);
+      cx.storage_case(&mut rng, &doc, &storage, &specs, &twins, iota);
     }
   }
   cx.rep.finish();
